@@ -208,6 +208,24 @@ func runBatch(c *vh.Ctx, cs Case) {
 	if cs.Self {
 		batchLen = selfProposedMessages(c, cs, f, batch, signed)
 	}
+	if signed > 1<<20 {
+		// the largest kind of message the batcher admits, framed by the real Send / Receive
+		wire := []byte(nil)
+		if !cs.Self && len(sent) > 0 {
+			wire = sent[len(sent)-1].Data
+		} else {
+			var me, to crypto.Hash
+			me, to[0] = f.b.SelfId(), 9
+			vh.Catch(func() {
+				wire = p2p.VerifBuildRelayMessage(me, to, p2p.VerifBuildTransactionsMessage(batch, p2p.PeerMessageTypeTransactionBundle))
+			})
+		}
+		if wire != nil {
+			l := newLink()
+			frameThroughReceive(c, cs, l, wire, "batch")
+			l.close()
+		}
+	}
 	c.Case(kind, key, true, cs, vh.App("CBatch", vh.Bool(cs.Self), vh.List(entries, "(Z * bool)"), vh.List(adm, "bool"), vh.ZI(int64(batchLen))))
 	if seen != len(cs.Shapes) {
 		c.Fail("batch-lost", fmt.Sprintf("%d of %d queued transactions were sent or proposed", seen, len(cs.Shapes)), cs)
@@ -420,6 +438,103 @@ func runFrames(c *vh.Ctx, cs Case) {
 	}
 }
 
+// frameThroughReceive sends data with the real Send and takes it from the other
+// end with the real QuicClient.Receive (the limit is whatever Receive itself
+// passes).  Only sizes go to the model.  Returns false when the link is no longer usable.
+func frameThroughReceive(c *vh.Ctx, cs Case, l *link, data []byte, what string) bool {
+	n := len(data)
+	var m *p2p.TransportMessage
+	var rerr, serr error
+	sendOk := false
+	if n >= 1 && n <= maxSize {
+		errc := make(chan error, 1)
+		go func() { errc <- l.client.Send(data) }()
+		m, rerr = l.server.Receive()
+		if rerr != nil {
+			l.server.Close("refused") // lets the blocked Send return
+		}
+		serr = <-errc
+		sendOk = serr == nil || rerr != nil // a receiver that stopped reading is not a refusal by Send
+	} else {
+		serr = l.client.Send(data)
+		sendOk = serr == nil
+	}
+	obs := vh.Err("Z")
+	same := false
+	if sendOk && rerr == nil && m != nil {
+		same = bytes.Equal(m.Data, data) && int(m.Size) == n && m.Version == p2p.TransportMessageVersion
+		if same {
+			obs = vh.Ok(vh.ZI(int64(len(m.Data))))
+		}
+	}
+	c.Case("bigframe:"+what, fmt.Sprint("bigframe", what, n), same, cs, vh.App("CFrameBig", vh.ZI(int64(n)), vh.Bool(sendOk), obs))
+	if sendOk != (n >= 1 && n <= maxSize) {
+		c.Fail("send-guard", fmt.Sprintf("Send of %d bytes (%s): accepted=%v (%v)", n, what, sendOk, serr), cs)
+		return false
+	}
+	if sendOk && !same {
+		c.Fail("frame-roundtrip", fmt.Sprintf("a %d-byte message (%s), which Send accepts and which is within the transport maximum %d, did not come back from Receive unchanged (%v)", n, what, maxSize, rerr), cs)
+		return false
+	}
+	return true
+}
+
+func runBigFrames(c *vh.Ctx, cs Case) {
+	r := vh.NewRand(cs.Seed, "c31/bigframes")
+	l := newLink()
+	defer func() { l.close() }()
+	for _, n := range cs.Sizes {
+		data := make([]byte, n)
+		for i := 0; i+8 <= n; i += 8 {
+			binary.LittleEndian.PutUint64(data[i:], r.U64())
+		}
+		if !frameThroughReceive(c, cs, l, data, "synthetic") {
+			l.close()
+			l = newLink()
+		}
+	}
+}
+
+// runRawReal writes a bare 6-byte header to the stream and calls the real
+// QuicClient.Receive on the other end.
+func runRawReal(c *vh.Ctx, cs Case) {
+	raw, err := hex.DecodeString(cs.Data)
+	if err != nil || len(raw) != 6 {
+		panic("rawreal needs a 6-byte header")
+	}
+	announced := binary.BigEndian.Uint32(raw[2:6])
+	if raw[0] == p2p.TransportMessageVersion && announced <= maxSize && announced > 0 {
+		panic("rawreal would block waiting for a body")
+	}
+	l := newLink()
+	defer l.close()
+	if _, err := p2p.VerifRawWrite(l.server, raw); err != nil {
+		panic(err)
+	}
+	var ms0, ms1 runtime.MemStats
+	runtime.GC()
+	runtime.ReadMemStats(&ms0)
+	t0 := time.Now()
+	m, rerr := l.client.Receive()
+	el := time.Since(t0)
+	runtime.ReadMemStats(&ms1)
+	alloc := ms1.TotalAlloc - ms0.TotalAlloc
+	obs := vh.Err("Z")
+	if rerr == nil {
+		obs = vh.Ok(vh.ZI(int64(len(m.Data))))
+	}
+	c.Case("rawreal", fmt.Sprint("rawreal", cs.Data), rerr == nil, cs, vh.App("CRecvHeader", vh.NU(uint64(raw[0])), vh.ZU(uint64(announced)), obs))
+	if announced > maxSize {
+		if rerr == nil {
+			c.Fail("oversize-accepted", fmt.Sprintf("Receive accepted a header announcing %d bytes, above the transport maximum %d", announced, maxSize), cs)
+		} else if el > 5*time.Second {
+			c.Fail("oversize-waits-for-body", fmt.Sprintf("refusing a header announcing %d bytes took %v: the body was awaited", announced, el), cs)
+		} else if alloc >= uint64(announced) {
+			c.Fail("oversize-allocated", fmt.Sprintf("refusing a header announcing %d bytes allocated %d bytes", announced, alloc), cs)
+		}
+	}
+}
+
 func runRaw(c *vh.Ctx, cs Case) {
 	raw, err := hex.DecodeString(cs.Data)
 	if err != nil {
@@ -473,6 +588,10 @@ func run(c *vh.Ctx, cs Case) {
 		runRelay(c, cs)
 	case "frames":
 		runFrames(c, cs)
+	case "bigframes":
+		runBigFrames(c, cs)
+	case "rawreal":
+		runRawReal(c, cs)
 	case "raw":
 		runRaw(c, cs)
 	default:
@@ -505,7 +624,7 @@ func main() {
 		"ten 4 MB storage transactions); random small batches, one batch of 6 transactions of 238x256 signatures " +
 		"(24 MB signed, crosses the 2/3 threshold) in the quick tier and the 9-transaction batch (36 MB signed, F8 shape) in the " +
 		"thorough and search tiers; bundle/relay builders on random sizes and at the maximum +-1; QUIC loopback frames of sizes " +
-		"0,1,..,max,max+1 and raw headers (wrong version, size = limit, limit+1, 2^32-1). Non-trivial = the loop sent a batch / the " +
+		"0,1,..,max,max+1, frames of 16 MiB+1 / 2/3 max / max (thorough: 1, 8, 16 MiB +-1, max-1) and the real batch messages through the real Receive with its own limit, raw headers through the real Receive (max+1, 2 max, 2^32-1) and raw headers (wrong version, size = limit, limit+1, 2^32-1). Non-trivial = the loop sent a batch / the " +
 		"builder or framing returned a value; distinct by shapes / sizes."
 	if c.Replay != "" {
 		var cs Case
@@ -533,6 +652,17 @@ func main() {
 	for _, n := range []int{0, 1, 65, maxSize - 1, maxSize, maxSize + 1} {
 		cases = append(cases, Case{Op: "relay", N: n})
 	}
+	// realistic sizes through the real Receive (its own limit): quick keeps the ones around half the
+	// maximum, the batcher's 2/3 budget and the maximum itself
+	bigSizes := []int{16<<20 + 1, maxSize * 2 / 3, maxSize, maxSize + 1}
+	if c.Tier != "quick" {
+		bigSizes = []int{1 << 20, 8 << 20, 16<<20 - 1, 16 << 20, 16<<20 + 1, maxSize * 2 / 3, maxSize*2/3 + 1020 + 2, maxSize - 1, maxSize, maxSize + 1}
+	}
+	cases = append(cases, Case{Op: "bigframes", Seed: r.U64(), Sizes: bigSizes})
+	for _, a := range []uint32{maxSize + 1, 2 * maxSize, 0xffffffff} {
+		cases = append(cases, Case{Op: "rawreal", Data: hdr(2, a, 0)})
+	}
+	cases = append(cases, Case{Op: "rawreal", Data: hdr(2, 0, 0)}, Case{Op: "rawreal", Data: hdr(3, 5, 0)})
 	cases = append(cases, Case{Op: "bundle", Seed: 1, Sizes: nil}, Case{Op: "bundle", Seed: 2, Sizes: make([]int, 255)}, Case{Op: "bundle", Seed: 3, Sizes: make([]int, 256)})
 	nb := c.Scale(40, 400)
 	for i := 0; i < nb; i++ {
